@@ -5,7 +5,7 @@ HERE = os.path.dirname(os.path.dirname(os.path.abspath(__file__)))
 for d in sorted(glob.glob(os.path.join(HERE, "seeded", "C*-*"))):
     pid, k = os.path.basename(d).split("-")
     meta_txt = open(os.path.join(d, "meta.txt")).read() if os.path.exists(os.path.join(d, "meta.txt")) else ""
-    log = open(os.path.join(d, "run.log")).read() if os.path.exists(os.path.join(d, "run.log")) else ""
+    log = open(os.path.join(d, "run.log"), errors="replace").read() if os.path.exists(os.path.join(d, "run.log")) else ""
     res = dict(re.findall(r"(build|suite|demo_without_patch|demo_with_patch)=(\d+)", log))
     checks = []
     for m in re.finditer(r"check (C\d+) quick: exit=(\d+) violations=(\d+) :: (.*)", log):
